@@ -442,8 +442,21 @@ func main() {
 				bad = true
 			}
 			overlay[path] = op
+			// virtual package verif/wsx: the websocket connection compiled against verif/fakews
+			if p.PkgPath == "github.com/256dpi/gomqtt/transport" {
+				base := filepath.Base(path)
+				if base == "base_conn.go" || base == "websocket_conn.go" {
+					txt := strings.Replace(buf.String(), `"github.com/gorilla/websocket"`, `websocket "verif/fakews"`, 1)
+					vp := filepath.Join(*out, "wsx_"+base)
+					os.WriteFile(vp, []byte(txt), 0o644)
+					overlay[filepath.Join(*dir, "wsx", base)] = vp
+				}
+			}
 		}
 	}
+	stub := filepath.Join(*out, "wsx_stub.go")
+	os.WriteFile(stub, []byte("package transport\n"), 0o644)
+	overlay[filepath.Join(*dir, "wsx", "stub.go")] = stub
 	js, _ := json.MarshalIndent(map[string]interface{}{"Replace": overlay}, "", " ")
 	os.WriteFile(filepath.Join(*out, "overlay.json"), js, 0o644)
 	if bad {
